@@ -104,7 +104,7 @@ def mk_query(ctx, dim, xform):
     return ctx.array(pts), pts
 
 
-def h_posterior(ctx, dim, xform):
+def h_posterior(ctx, dim, xform, tail=False):
     bounds = [(ctx.real('lo%d' % i), ctx.real('hi%d' % i)) for i in range(dim)]
     for lo, hi in bounds:
         ctx.assume(lo < hi)
@@ -135,6 +135,10 @@ def h_posterior(ctx, dim, xform):
                       And(*[close(gv[r][i], ctx.apply_uf('DLOGPRIOR%d_%d' % (dim, i), p)) for i in range(dim)]))
             continue
         ctx.claim('row%d_finite_iff_inside_bounds' % r, inside)
+        if tail and ctx.symbolic:
+            # far lower tail of Phi: in exact arithmetic nothing is special here, but this is where IEEE doubles
+            # underflow (Phi(z) = 0 below z = -38.5); the models of this region are run by the concrete twin
+            ctx.assume(And(inside, v >= 1, v <= 4, (h - mu) < -120, (h - mu) > -400))
         if ctx.symbolic:
             sd = ctx.uf_sqrt(v)
             z = (h - mu) / sd
@@ -363,6 +367,9 @@ def h_update(ctx, n, d, m):
 
 HARNESSES = [
     H('posterior_d1_scalar', h_posterior, dict(dim=1, xform='scalar'), bounds='dim 1, scalar query'),
+    H('posterior_d1_scalar_far_tail', h_posterior, dict(dim=1, xform='scalar', tail=True),
+      bounds='dim 1, scalar query inside the bounds with (threshold - mean)/sd in (-400, -30): the region where Phi underflows '
+             'in doubles (decided symbolically over the reals; its models are run on the real code in floats)'),
     H('posterior_d1_1d', h_posterior, dict(dim=1, xform='1d'), bounds='dim 1, two query points'),
     H('posterior_d2_1d', h_posterior, dict(dim=2, xform='1d'), bounds='dim 2, one query point (1-D input)'),
     H('posterior_d2_2d', h_posterior, dict(dim=2, xform='2d'), bounds='dim 2, two query points', tiers=('thorough',)),
